@@ -216,9 +216,22 @@ def impl(line: str) -> str:
             return "err " + common.err_class(e)
         return "ok " + (",".join(hx(x) for x in w) or "-")
     if op == "exec":
-        # the line carries a witness the REAL engine accepted for this expression (stream `exec` is only fed from
-        # accepted spends of the `spend` oracle): acceptance leaves exactly the true value
-        return "ok 01"
+        # the REAL engine's verdict on this witness, under every script flag it implements (MINIMALIF, NULLFAIL, …:
+        # the model's semantics), for the real spend the signatures were made for
+        from . import c15_spend as SP
+        from btclib.script.engine import verify_transaction
+        from btclib.script.witness import Witness
+        n = from_tokens(t[1], t[7:])
+        pr = SP._prepare(str(n), t[1])
+        tx = SP._tx(int(t[4]), int(t[5]), int(t[6]))
+        stack = [] if t[3] == "-" else [common.unhx(e) for e in t[3].split(",")]
+        tail = [pr.script, pr.control] if t[1] == TAPSCRIPT else [pr.script]
+        tx.vin[0].script_witness = Witness([*stack, *tail])
+        try:
+            verify_transaction([pr.prevout], tx, SP.POLICY_FLAGS)
+        except Exception:  # noqa: BLE001 - any refusal is a refusal
+            return "reject"
+        return "accept"
     if op == "parse":
         try:
             node = M.parse(common.unhx(t[2]).decode("utf8", "replace"), t[1])
@@ -277,6 +290,30 @@ def _o_text(w):
     except RecursionError:  # dataclass __eq__ recurses on the depth of the tree
         same = tokens(back) == tokens(node)
     return same and str(back) == text, f"{text[:200]} re-parsed as {str(back)[:200]}"
+
+
+def mutate_witness(rng, stack: list, pool: list) -> list:
+    """one edit of a witness stack: drop, insert, replace, swap, or flip a byte of an element."""
+    st = list(stack)
+    r = rng.random()
+    if not st or r < 0.2:
+        st.insert(rng.randrange(len(st) + 1), rng.choice(pool))
+    elif r < 0.4:
+        del st[rng.randrange(len(st))]
+    elif r < 0.65:
+        st[rng.randrange(len(st))] = rng.choice(pool)
+    elif r < 0.8 and len(st) > 1:
+        i, j = rng.sample(range(len(st)), 2)
+        st[i], st[j] = st[j], st[i]
+    else:
+        i = rng.randrange(len(st))
+        e = bytearray(st[i])
+        if e:
+            e[rng.randrange(len(e))] ^= 1 << rng.randrange(8)
+            st[i] = bytes(e)
+        else:
+            st[i] = b"\x01"
+    return st
 
 
 def mutate_script(rng, script: bytes) -> bytes:
@@ -637,6 +674,7 @@ def run(ctx):
     sat_lines: list[str] = []
     sat_cap = ctx.n(1500, 60000)
     exec_lines = []
+    exec_cap = ctx.n(2500, 60000)
     S1 = {"0", "1", "pk_k", "pk_h", "sha256", "hash256", "ripemd160", "hash160", "c:", "v:", "a:", "s:", "n:", "d:",
           "and_v", "and_b", "or_b", "or_c", "or_d", "or_i", "andor"}
     for n in spend_nodes[:ctx.n(150, 3000)]:
@@ -655,13 +693,21 @@ def run(ctx):
                 sg = ",".join(f"{k.hex()}:{v.hex()}" for k, v in sorted(sm0.items())) or "-"
                 sat_lines.append(f"sat {n.context} {sg} {pre} {a['locktime']} {a['sequence']} {a['version']} "
                                  + " ".join(tokens(n)))
-            if in_s1 and r.get("produced") and r.get("engine_ok"):
-                # the model's evaluator (the semantics T3 is proved against) must accept what the real engine accepted
+            if in_s1 and len(exec_lines) < exec_cap:
+                # the model's verdict (`accepts`: the semantics T3/T4 are proved against, plus the interpreter's
+                # limits) against the real engine's, on the produced witness AND on witnesses the engine refuses
                 sm = SP._signatures(SP._prepare(text, n.context), n.context,
                                     SP._tx(a["locktime"], a["sequence"], a["version"]), a)
                 sigs = ",".join(f"{k.hex()}:{v.hex()}" for k, v in sorted(sm.items())) or "-"
-                wit = ",".join(hx(bytes.fromhex(e)) for e in r["stack"]) or "-"
-                exec_lines.append(f"exec {n.context} {sigs} {wit} " + " ".join(tokens(n)))
+                pool = [b"", b"\x01", b"\x02", bytes(32), b"\x00"] + list(sm.values())[:3] + \
+                    [written_key(n, k) for k in n.key_expressions][:3] + [SP.PREIMAGES[0], SP.PREIMAGES[1]]
+                base = [bytes.fromhex(e) for e in r["stack"]] if r.get("produced") else \
+                    [rng.choice(pool) for _ in range(rng.randrange(0, (n.max_stack_items or 1) + 2))]
+                cands = [base] + [mutate_witness(rng, base, pool) for _ in range(3)]
+                for wst in cands:
+                    wit = ",".join(hx(e) for e in wst) or "-"
+                    exec_lines.append(f"exec {n.context} {sigs} {wit} {a['locktime']} {a['sequence']} {a['version']} "
+                                      + " ".join(tokens(n)))
             ctx.count("spend", ("produced" if r.get("produced") else "refused:" + str(r.get("refusal")))
                       + ("/cond" if r.get("cond") else "/nocond") + ("/sane" if r.get("is_sane") else "/insane"))
             ok, detail = SP._judge(r) if hasattr(SP, "_judge") else SP.oracle_spend(w)
@@ -675,7 +721,22 @@ def run(ctx):
     for ln in lines["decode"][:ctx.n(600, 12000)]:
         t = ln.split(" ")
         ctx.check("decoder_total", {"script": "" if t[3] == "_" else t[3], "context": t[1]})
-    ctx.stream("exec", exec_lines)
+    # past the 201-op limit: and_v(v:pkh(K),…,pk(K)) nested 51 deep is typed and satisfiable but not
+    # is_within_resource_limits (max_ops 205): the engine refuses the satisfaction (OP_COUNT), and so must the model
+    kx = keys[0]
+    for depth in (48, 49, 50, 51, 52):
+        deep = f"pk({kx})"
+        for _ in range(depth):
+            deep = f"and_v(v:pkh({kx}),{deep})"
+        dn = M.parse(deep, P2WSH)
+        a = {"keys": [0], "preimages": [], "locktime": 0, "sequence": 0, "version": 2}
+        r = SP.spend_check(deep, P2WSH, a)
+        sm = SP._signatures(SP._prepare(deep, P2WSH), P2WSH, SP._tx(0, 0, 2), a)
+        sigs = ",".join(f"{k.hex()}:{v.hex()}" for k, v in sorted(sm.items()))
+        if r.get("produced"):
+            exec_lines.append(f"exec P2WSH {sigs} " + ",".join(r["stack"]) + " 0 0 2 " + " ".join(tokens(dn)))
+            ctx.count("exec.deep", f"max_ops={dn.max_ops} limits={dn.is_within_resource_limits} engine={r['engine_ok']}")
+    ctx.stream("exec", exec_lines, nontrivial=lambda line, out: True)
     ctx.stream("sat", sat_lines, nontrivial=lambda line, out: out.startswith("ok"))
     # BIP68: an older() is met from transaction version 2 only.  Every P2WSH expression with an older() is finalized
     # (and satisfied) in a VERSION-1 transaction whose nSequence would meet it, every key and preimage available:
@@ -701,7 +762,7 @@ def run(ctx):
     ctx.count("solver", "version-1 with older()", v1)
     ctx.note("T3/T4 are partial: covered_constructors = 0, 1, pk_k, pk_h, sha256, hash256, ripemd160, hash160, c:, v:, "
              "a:, s:, n:, d:, and_v, and_b, or_b, or_c, or_d, or_i, andor (Props.C15.type_soundness_partial / "
-             "satisfaction_accepted_partial); not covered: j: older after multi multi_a thresh, the satisfier's choice and "
+             "satisfaction_accepted_partial / satisfy_accepted_partial); not covered: j: older after multi multi_a thresh, the satisfier's choice and "
              "the soundness of the static bounds (bounds tables: `bounds` stream; actual spends: `spend` oracle)")
     ctx.note(f"spend oracle: {produced} satisfactions produced and run through the real engine (p2wsh and tapscript)")
     for n in nodes:
